@@ -38,6 +38,9 @@ def _models():
         "uniform_1_None": lambda: UniformIce(1.5, valid_range=(-1000, 0), index_above=1, index_below=None),
         "uniform_None_None": lambda: UniformIce(1.78, valid_range=(-300, -100), index_above=None, index_below=None),
         "uniform_1_1.9": lambda: UniformIce(1.6, valid_range=(-800, 0), index_above=1, index_below=1.9),
+        # integer-typed parameters with non-integral neighbours (an array result must not inherit an integer dtype)
+        "uniform_int": lambda: UniformIce(2, valid_range=(-500, 0), index_above=1.0003, index_below=1.5),
+        "antarctic_int": lambda: AntarcticIce(n0=2, k=1, a=0.0132, valid_range=(-2000, -10), index_above=1, index_below=2),
         "layered_2": lambda: LayeredIce([UniformIce(1.4, valid_range=(-100, 0)),
                                          AntarcticIce(valid_range=(-2850, -100))]),
         "layered_3": lambda: LayeredIce([UniformIce(1.6, valid_range=(-777, -400), index_below=1.7),
@@ -110,6 +113,22 @@ def evaluate(case):
             for z, a in zip(zs, arr):
                 if float(a) != scal.get(float(z)):
                     fail("index-scalar-vs-array", "index(%r): scalar %r, as array element %r" % (z, scal.get(float(z)), float(a)), z=float(z))
+    # integer-typed depth input (Python ints, lists of ints, integer arrays) is the same depth
+    ints = [z for z in depths if float(z).is_integer()]
+    for z in ints:
+        n += 1
+        v = ice.index(int(z))
+        if np.ndim(v) != 0 or float(v) != scal.get(z):
+            fail("index-int-input", "index(int %d) = %r, index(%r) = %r" % (int(z), v, z, scal.get(z)), z=z)
+    if ints:
+        # (a plain Python list raises TypeError in AntarcticIce.index -- documented as array_like, but the property speaks
+        # of scalar and array depths only, so lists are not demanded here)
+        for zs in (np.array([int(z) for z in ints], dtype=np.int64),):
+            n += 1
+            arr = np.asarray(ice.index(zs))
+            if arr.shape != (len(ints),) or any(float(a) != scal.get(z) for z, a in zip(ints, arr)):
+                fail("index-int-input", "index(%s of ints %r) = %r, float evaluation %r"
+                     % (type(zs).__name__, [int(z) for z in ints], arr.tolist(), [scal.get(z) for z in ints]), kind=type(zs).__name__)
     inside = [z for z in depths if lo <= z <= hi]
     if not layered:
         for z1, z2 in zip(inside[:-1], inside[1:]):       # z1 > z2 (z2 deeper)
